@@ -45,9 +45,16 @@ PointDecls ==
   {PointDecl("From", san, "std", val) : san \in {<<>>, <<San("rev")>>}, val \in {<<P("sorted")>>}}
   \cup {PointDecl(c, san, "none", <<>>) : san \in {<<>>, <<San("rev")>>}, c \in {"From", "TryFrom"}}
 PointVals == [1..2 -> Elems]
+\* ... and the bare type parameter as inner type, `Nt<T>(T)` used at T = Point: every trait impl is generic over T
+\* (no sanitizer or validator can be written for an unknown T; `Into` is impossible: `impl<T> From<Nt<T>> for T`)
+GenPointTraits == <<"Debug", "Clone", "Copy", "PartialEq", "Eq", "PartialOrd", "Ord", "Hash", "AsRef", "Deref", "Borrow",
+                    "Display", "FromStr", "Serialize", "Deserialize">>
+GenPointDecls ==
+  {[fam |-> "any", ty |-> "Gen<Point>", san |-> <<>>, vmode |-> "none", val |-> <<>>,
+    traits |-> GenPointTraits \o <<c>>, dflt |-> <<>>] : c \in {"From", "TryFrom"}}
 
 DeclSpace ==
-  PointDecls \cup
+  PointDecls \cup GenPointDecls \cup
   UNION {
     {Decl(ty, san, "std", val, dflt) : san \in SanSeqs, val \in ValSeqs, dflt \in Defaults(ty)}
     \cup {Decl(ty, san, "none", <<>>, dflt) : san \in SanSeqs, dflt \in Defaults(ty)}
@@ -59,10 +66,10 @@ MCDeclSeq == SetToSeq(DeclSpace)
 
 MCInputsOf(d, e) ==
   IF e = "default" THEN {In(<<>>)}
-  ELSE {In(x) : x \in (IF d.ty = "Point" THEN PointVals ELSE Vals)} \cup (IF e \in {"deser", "parse"} THEN {InFail} ELSE {})
+  ELSE {In(x) : x \in (IF d.ty \in {"Point", "Gen<Point>"} THEN PointVals ELSE Vals)} \cup (IF e \in {"deser", "parse"} THEN {InFail} ELSE {})
 
 MCEpsOf(d) ==
-  {CtorName(d), "default", "deser"} \cup (IF d.ty = "Point" THEN {"parse"} ELSE {}) \cup (IF NInSeq("From", d.traits) THEN {"from"} ELSE {"try_from"})
+  {CtorName(d), "deser"} \cup (IF d.dflt # <<>> THEN {"default"} ELSE {}) \cup (IF d.ty \in {"Point", "Gen<Point>"} THEN {"parse"} ELSE {}) \cup (IF NInSeq("From", d.traits) THEN {"from"} ELSE {"try_from"})
 
 MCPrim(n, x, env) == x
 
